@@ -478,3 +478,28 @@ Section Converse.
         rewrite X; [intros ? ? []|intros x I; apply C; right; exact I].
   Qed.
 End Converse.
+
+(* ------------------------------------------------------------------ discharging the hypotheses for the concrete functions *)
+(* the ingest worker's steps for one message are within the theorem's scope whenever the fault script of the
+   publication it may cause is survivable *)
+Lemma recv_events_wok att s sc : forall ks,
+  survivable att sc = true -> Forall (wok att) (recv_events s ks sc).
+Proof.
+  intros ks SV.
+  assert (NIL : survivable att [] = true) by (destruct att; [discriminate|reflexivity]).
+  revert sc SV. induction ks as [|k r IH]; intros sc SV; cbn [recv_events]; [constructor|].
+  destruct (S.tracked s k).
+  - constructor; [exact NIL|apply IH; exact SV].
+  - constructor; [exact NIL|]. constructor; [exact SV|apply IH; exact NIL].
+Qed.
+
+(* the fields hypothesis holds for everything the ingest path produces *)
+Lemma forwarded_over_histories_ingested fields att D0 ws k :
+  (forall k, exists c w s, sel_wf s /\ In (fields k) (ingest c w s)) -> Forall (wok att) ws ->
+  station_accepts (fst (wrun fields att D0 ws)) k = true ->
+  (forall u, life_of (fst (wrun fields att D0 ws)) k <> Some (station_lifetime u, u)) ->
+  detector_forwards (fields k) (snd (wrun fields att D0 ws)) = true.
+Proof.
+  intros ING. apply forwarded_over_histories.
+  intros k0. destruct (ING k0) as (c & w & s & W & I). eapply ingest_ok; eauto.
+Qed.
